@@ -14,7 +14,7 @@ import inspect
 import re
 
 PARAMS = {}
-TWIN = False          # reachability twin: the lemma's result is forced to False at its end
+TWIN = False          # reachability twin (worker.py replaces the post-condition by False)
 CONCRETE = False      # set by replay.py: running without CrossHair
 REGISTRY = {}
 
@@ -45,25 +45,30 @@ class Meta:
         self.plug = plug
         self.twin_timeout = twin_timeout
         self.note = note
+        self.canary = []
+        self.kind = 'chx'
 
 
 def lemma(name, prop, quick=({},), thorough=None, timeout=120, per_path=30, covers=(), stubs=(),
-          replay=None, gate=None, plug=True, twin_timeout=60, note=''):
+          replay=None, gate=None, plug=True, twin_timeout=60, note='', canary=()):
     """quick / thorough: lists of parameter dicts, one job (partition) each.
     A parameter dict may carry 'timeout' to override the lemma's."""
     def deco(fn):
-        @functools.wraps(fn)
-        def wrapper(*a, **k):
-            r = fn(*a, **k)
-            if TWIN:
-                return False
-            return r
-        meta = Meta(wrapper, name, prop, list(quick), list(thorough if thorough is not None else quick),
-                    timeout, per_path, list(covers), list(stubs), replay, inspect.getdoc(fn) or '',
+        # NOTE: the function is registered as it is, NOT wrapped: CrossHair short-circuits calls
+        # to functions that carry a contract (it assumes their post-condition instead of running
+        # them), so a wrapper calling a contracted inner function would make every lemma
+        # "Confirmed".  (worker.py additionally disables short-circuiting altogether.)
+        doc = inspect.getdoc(fn) or ''
+        meta = Meta(fn, name, prop, list(quick), list(thorough if thorough is not None else quick),
+                    timeout, per_path, list(covers), list(stubs), replay, doc,
                     gate, plug, twin_timeout, note)
-        wrapper.__lemma__ = meta
+        # canaries: parameter sets under which the lemma is KNOWN to be false (an exclusion switched
+        # off, a deliberately wrong oracle).  They must come back REFUTED -- a sensitivity self-test
+        # of engine + harness, run with every check.
+        meta.canary = list(canary)
+        fn.__lemma__ = meta
         REGISTRY[(fn.__module__, fn.__name__)] = meta
-        return wrapper
+        return fn
     return deco
 
 
@@ -73,7 +78,8 @@ _LINE = re.compile(r'^\s*(pre|post|raises)\s*:\s*(.*?)\s*$')
 def contract(fn):
     """(pre-expressions, post-expressions, admitted exception names) from the docstring"""
     pre, post, raises = [], [], []
-    for line in (inspect.getdoc(fn) or '').splitlines():
+    doc = fn.__lemma__.doc if hasattr(fn, '__lemma__') else (inspect.getdoc(fn) or '')
+    for line in doc.splitlines():
         m = _LINE.match(line)
         if not m:
             continue
@@ -95,7 +101,7 @@ def run_concrete(fn, args):
     bound = sig.bind(*args)
     env = dict(inner.__globals__)
     env.update(bound.arguments)
-    pre, post, raises = contract(inner)
+    pre, post, raises = contract(fn)
     for p in pre:
         try:
             ok = eval(p, env)
